@@ -1058,17 +1058,22 @@ func writePartContentWithS3(buf *bytes.Buffer, sharedDB *sql.DB, part map[string
 				if end > len(raw) {
 					end = len(raw)
 				}
+				if i > 0 {
+					wrapped.WriteString("\r\n")
+				}
 				wrapped.WriteString(raw[i:end])
-				wrapped.WriteString("\r\n")
 			}
 			content = wrapped.String()
 		}
 	}
 
+	// The CRLF in front of the next boundary delimiter belongs to the
+	// delimiter, not to the part (RFC 2046 5.1.1): it is always written, also
+	// after content that itself ends in CRLF. Otherwise that CRLF is taken
+	// for the delimiter's, and BODYSTRUCTURE announces two octets less than
+	// BODY[n] returns.
 	buf.WriteString(content)
-	if !strings.HasSuffix(content, "\r\n") {
-		buf.WriteString("\r\n")
-	}
+	buf.WriteString("\r\n")
 	return nil
 }
 
